@@ -315,8 +315,6 @@ def one_line_per_instruction(ctx, py: PyRepo):
     pp = py.cls('PrettyPrintingInterpreter')
     ser = py.cls('SerializingInterpreter')
     # the decorator writes exactly one newline after the step text, and returns the super result
-    deco = pp.methods.get('pretty')
-    ctx.require(deco is not None, 'anchor vanished: PrettyPrintingInterpreter.pretty')
     from .c07 import pretty_wrapper
     facts = pretty_wrapper(py)
     ctx.require(facts is not None, 'PrettyPrintingInterpreter.pretty: wrapper not found')
@@ -331,7 +329,7 @@ def one_line_per_instruction(ctx, py: PyRepo):
         if seq != [step, nl]:
             ok_deco = False
     ctx.ob('one-line-per-step', 'decorator', ok_deco,
-           'the @pretty wrapper must print the step text once and terminate it with exactly one newline', py.where(pp.module, deco))
+           'the @pretty wrapper must print the step text once and terminate it with exactly one newline', py.where(pp.module, _wrp))
     for meth in PM.INTERP_METHODS:
         in_pp, in_ser = meth in pp.methods, meth in ser.methods
         where = py.where(pp.module, pp.methods.get(meth) or pp.node)
